@@ -185,7 +185,7 @@ impl Scenario for Twin {
                 let d = gen_table(rng, &self.sw, &format!("t{}", i));
                 self.setup.push(Op::create_table(d));
             }
-            if self.mode == Mode::Restart && self.sw.max_rows_stmt % 2 == 0 {
+            if matches!(self.mode, Mode::Restart | Mode::Dump) && self.sw.max_rows_stmt % 2 == 0 {
                 // every persisted value type, with rows that SQL INSERT cannot produce (SMALLINT etc.)
                 self.setup.push(Op::new(Kind::Other, crate::imagegen::TYPED_DDL.to_string()).table("ty"));
                 self.setup.push(Op::new(Kind::Other, format!("<typed rows {}>", rng.next_u64())).table("ty"));
